@@ -41,7 +41,8 @@ REAL = ["mokapot.parsers.pin", "mokapot.tabular_data", "mokapot.dataset.OnDiskPs
 STUBS = ["joblib.Parallel -> vsim.sched.SimParallel (seeded baton-passing threads)"]
 PROBES = ["col_chunks>=2", "row_chunks>=2", "identifier_own_chunk", "nan_planted", "malformed", "parquet",
           "workers>1", "switches>0", "case_mangled", "n_feat_mod_chunk==0", "multi_rowgroup", "path_parsed_before_with_other_table",
-          "parquet_dictionary_typed_strings", "parquet_written_from_sliced_frame", "missing_value_spelled_out"]
+          "parquet_dictionary_typed_strings", "parquet_written_from_sliced_frame", "missing_value_spelled_out",
+          "parquet_missing_values_stored_as_nan"]
 
 
 def _mangle_case(rng, name):
@@ -190,6 +191,8 @@ def make_scenario(seed):
         # Parquet written by other tools: low-cardinality strings dictionary-typed; index metadata of a sliced pandas frame
         "dict_strings": fmt == "parquet" and rng.random() < 0.35,
         "index_start": rng.choice([1, 40, 10**6]) if fmt == "parquet" and rng.random() < 0.3 else 0,
+        # missing values of floating-point columns stored as NaN values instead of nulls (files not written by pandas)
+        "nan_values": fmt == "parquet" and random.Random(f"nanv|{seed}").random() < 0.4,
         # how a text file spells a missing value
         "na_token": rng.choice(["", "", "NA", "N/A", "null", "NaN", "nan", "#N/A", "NULL"]) if fmt != "parquet" else "",
     }
@@ -214,7 +217,8 @@ def run_scenario(scn, workdir):
             pass
         path.unlink()
     world.materialise(table, path, scn["format"], scn.get("row_group"), dict_strings=bool(scn.get("dict_strings")),
-                      index_start=int(scn.get("index_start") or 0), na_token=scn.get("na_token") or "")
+                      index_start=int(scn.get("index_start") or 0), na_token=scn.get("na_token") or "",
+                      nan_values=bool(scn.get("nan_values")))
     mal = scn["table"].get("malformed")
     n_rows = len(table["rows"])
     ccs = scn["knobs"]["CHUNK_SIZE_COLUMNS_FOR_DROP_COLUMNS"]
@@ -238,6 +242,7 @@ def run_scenario(scn, workdir):
         "parquet": int(scn["format"] == "parquet"),
         "parquet_dictionary_typed_strings": int(bool(scn.get("dict_strings"))),
         "parquet_written_from_sliced_frame": int(bool(scn.get("index_start"))),
+        "parquet_missing_values_stored_as_nan": int(bool(scn.get("nan_values"))),
         "missing_value_spelled_out": int(bool(scn.get("na_token")) and bool(scn["table"].get("nan_cols"))),
         "workers>1": int(scn["max_workers"] > 1),
         "switches>0": int(sstats["switches"] > sstats["parallel_calls"]),
